@@ -423,3 +423,124 @@ Proof.
   rewrite compact_nodes_exact.
   destruct (firstn search_concurrency _); [destruct announce; discriminate|discriminate].
 Qed.
+
+(* ------------------------------------------------------------------ the whole search: our own id is never a contact *)
+
+Definition no_own (own : N) (l : list contact) : Prop := forall c, In c l -> c_id c <> own.
+
+Lemma insert_contact_in : forall t c l l' x, insert_contact t c l = Some l' -> In x l' -> x = c \/ In x l.
+Proof.
+  intros t c. induction l as [|y l IH]; intros l' x H Hx.
+  - cbn in H. inversion H. subst. destruct Hx as [<-|[]]. left; reflexivity.
+  - cbn [insert_contact] in H. destruct (closer t (c_id c) (c_id y)).
+    + inversion H. subst. destruct Hx as [<-|Hx]; [left; reflexivity|right; exact Hx].
+    + destruct (closer t (c_id y) (c_id c)); [|discriminate].
+      destruct (insert_contact t c l) as [r'|] eqn:E; [|discriminate]. inversion H. subst.
+      destruct Hx as [<-|Hx]; [right; left; reflexivity|].
+      destruct (IH r' x eq_refl Hx) as [->|Hin]; [left; reflexivity|right; right; exact Hin].
+Qed.
+
+Lemma add_contact_no_own : forall own t s id a, id <> own -> no_own own (s_cs s) -> no_own own (s_cs (s_add_contact t s id a)).
+Proof.
+  intros own t s id a Hid H. unfold s_add_contact.
+  destruct (insert_contact t (mkC id a CNew) (s_cs s)) as [l|] eqn:E; [|exact H].
+  cbn [s_cs]. intros c Hc. destruct (insert_contact_in _ _ _ _ _ E Hc) as [->|Hin]; [exact Hid|apply H, Hin].
+Qed.
+
+Lemma set_status_ids : forall id st l c, In c (set_status id st l) -> exists c', In c' l /\ c_id c = c_id c'.
+Proof.
+  intros id st. induction l as [|y l IH]; intros c H; [destruct H|].
+  cbn [set_status] in H. destruct (c_id y =? id).
+  - destruct H as [<-|H]; [exists y; split; [left; reflexivity|reflexivity]|exists c; split; [right; exact H|reflexivity]].
+  - destruct H as [<-|H]; [exists y; split; [left; reflexivity|reflexivity]|].
+    destruct (IH c H) as (c' & Hin & E). exists c'. split; [right; exact Hin|exact E].
+Qed.
+
+Lemma set_status_no_own : forall own id st l, no_own own l -> no_own own (set_status id st l).
+Proof. intros own id st l H c Hc. destruct (set_status_ids _ _ _ _ Hc) as (c' & Hin & E). rewrite E. apply H, Hin. Qed.
+
+Lemma trim_go_incl : forall need l c, In c (trim_go need l) -> In c l.
+Proof.
+  intros need l. revert need. induction l as [|y l IH]; intros need c H; [destruct H|].
+  cbn [trim_go] in H. destruct (negb (is_active y) && (need =? 0)).
+  - right. eapply IH. exact H.
+  - destruct H as [<-|H]; [left; reflexivity|right; eapply IH; exact H].
+Qed.
+
+Lemma get_contact_no_own : forall own s, no_own own (s_cs s) ->
+  no_own own (s_cs (fst (s_get_contact s))) /\ (forall c, snd (s_get_contact s) = Some c -> c_id c <> own).
+Proof.
+  intros own s H. unfold s_get_contact. destruct (s_conc s <=? s_pending s); [cbn; split; [exact H|discriminate]|].
+  set (s1 := if s_restart s then s_trim s else s).
+  assert (H1 : no_own own (s_cs s1)).
+  { unfold s1. destruct (s_restart s); [|exact H]. cbn [s_trim s_cs]. intros c Hc. apply H. eapply trim_go_incl. exact Hc. }
+  destruct (s_next s1) as [id|]; [|cbn; split; [exact H1|discriminate]].
+  cbn [fst snd s_cs]. split; [apply set_status_no_own, H1|].
+  intros c Hc. unfold find_contact in Hc. apply find_some in Hc. destruct Hc as [Hin _].
+  exact (set_status_no_own own id CActive _ H1 c Hin).
+Qed.
+
+Lemma fill_no_own : forall own fuel s acc, no_own own (s_cs s) -> (forall c, In c acc -> c_id c <> own) ->
+  no_own own (s_cs (fst (s_fill fuel s acc))) /\ (forall c, In c (snd (s_fill fuel s acc)) -> c_id c <> own).
+Proof.
+  intros own. induction fuel as [|fuel IH]; intros s acc Hs Hacc; [cbn; split; assumption|].
+  cbn [s_fill]. destruct (get_contact_no_own own s Hs) as [G1 G2].
+  destruct (s_get_contact s) as [s' [c|]]; cbn [fst snd] in *.
+  - apply IH; [exact G1|]. intros x Hx. apply in_app_iff in Hx. destruct Hx as [Hx|[<-|[]]]; [apply Hacc, Hx|apply G2; reflexivity].
+  - split; assumption.
+Qed.
+
+Lemma fold_add_no_own : forall own t (f : N * addr -> bool) recs s,
+  (forall r, In r recs -> f r = false -> fst r <> own) -> no_own own (s_cs s) ->
+  no_own own (s_cs (fold_left (fun s r => if f r then s else s_add_contact t s (fst r) (snd r)) recs s)).
+Proof.
+  intros own t f. induction recs as [|r recs IH]; intros s Hf Hs; [exact Hs|].
+  cbn [fold_left]. apply IH; [intros x Hx; apply Hf; right; exact Hx|].
+  destruct (f r) eqn:E; [exact Hs|]. apply add_contact_no_own; [apply Hf; [left; reflexivity|exact E]|exact Hs].
+Qed.
+
+Lemma search_reply_no_own : forall own t s resp recs, no_own own (s_cs s) ->
+  no_own own (s_cs (fst (search_reply own t s resp recs))) /\
+  (forall c, In c (snd (search_reply own t s resp recs)) -> c_id c <> own).
+Proof.
+  intros own t s resp recs Hs. unfold search_reply.
+  destruct (find_contact resp (s_cs s)) as [c|]; [|cbn; split; [exact Hs|intros c []]].
+  destruct (is_active c); [|cbn; split; [exact Hs|intros x []]].
+  apply fill_no_own; [|intros x []].
+  apply (fold_add_no_own own t (fun r => fst r =? own)).
+  - intros r _ E. apply N.eqb_neq. exact E.
+  - cbn [s_cs]. apply set_status_no_own, Hs.
+Qed.
+
+(* for every routing-table snapshot that does not hold our own id (C15: the table never does), every target and
+   every sequence of replies with arbitrary `nodes` strings: no query of the search goes to our own id *)
+Lemma search_never_contacts_own_id : forall own t init replies,
+  (forall r, In r init -> fst r <> own) ->
+  forall qs c, In qs (search_run own t init replies) -> In c qs -> c_id c <> own.
+Proof.
+  intros own t init replies Hinit. unfold search_run, search_start.
+  set (s00 := fold_left (fun s r => s_add_contact t s (fst r) (snd r)) init (mkS [] 0 3 false None)).
+  assert (H00 : no_own own (s_cs s00)).
+  { unfold s00. apply (fold_add_no_own own t (fun _ => false)); [intros r Hr _; apply Hinit, Hr|intros c []]. }
+  destruct (fill_no_own own fill_fuel s00 [] H00 (fun c (F : In c []) => match F with end)) as [F1 F2].
+  destruct (s_fill fill_fuel s00 []) as [s0 q0]. cbn [fst snd] in *.
+  assert (G : forall replies s outs, no_own own (s_cs s) -> (forall qs c, In qs outs -> In c qs -> c_id c <> own) ->
+              forall qs c, In qs (snd (fold_left (fun st rp => let '(s, outs) := st in
+                                      match parse_compact_nodes (snd rp) with
+                                      | POk recs => let '(s', q) := search_reply own t s (fst rp) recs in (s', outs ++ [q])
+                                      | _ => (s, outs ++ [[]])
+                                      end) replies (s, outs))) -> In c qs -> c_id c <> own).
+  { induction replies0 as [|rp replies0 IH]; intros s outs Hs Houts; [exact Houts|].
+    cbn [fold_left]. destruct (parse_compact_nodes (snd rp)) as [recs| |].
+    - destruct (search_reply_no_own own t s (fst rp) recs Hs) as [R1 R2].
+      destruct (search_reply own t s (fst rp) recs) as [s' q]. cbn [fst snd] in *.
+      apply IH; [exact R1|]. intros qs c Hq Hc. apply in_app_iff in Hq. destruct Hq as [Hq|[<-|[]]]; [eapply Houts; eassumption|apply R2, Hc].
+    - apply IH; [exact Hs|]. intros qs c Hq Hc. apply in_app_iff in Hq. destruct Hq as [Hq|[<-|[]]]; [eapply Houts; eassumption|destruct Hc].
+    - apply IH; [exact Hs|]. intros qs c Hq Hc. apply in_app_iff in Hq. destruct Hq as [Hq|[<-|[]]]; [eapply Houts; eassumption|destruct Hc]. }
+  apply G; [exact F1|]. intros qs c [<-|[]] Hc. apply F2, Hc.
+Qed.
+
+Example ex_search_run :
+  map (map c_id) (search_run 5 7 [(1, A4 1 1)] [(1, repeat 0 19 ++ [5; 0;0;0;2;0;2] ++ repeat 0 19 ++ [6; 0;0;0;3;0;3])])
+  = [[1]; [6]].
+Proof. vm_compute. reflexivity. Qed.
